@@ -15,12 +15,22 @@ open Gonnx
 /-- pad the parsed inputs with absent entries as the gate does -/
 def padTo (ins : List (Option DT)) (n : Nat) : List (Option DT) := ins ++ List.replicate (n - ins.length) none
 
+/-- failures of `Init` that are panics: they happen before the gate is consulted -/
+def initPanics (op : String) (attrs : Json) : Option String :=
+  if op == "LinearRegressor" then
+    if !(attrNames attrs).contains "coefficients" then some "linreg.no_coefficients"
+    else if (attrNames attrs).contains "targets" && attrInt attrs "targets" 1 == 0 then some "linreg.zero_targets"
+    else none
+  else none
+
 /-- operator-level case: `Init` attribute errors are modelled per operator; then the gate (over the
 regenerated registry); then the operator model -/
 def runOpLive (op : String) (attrs : Json) (ins : List (Option DT)) (nOut : Nat := 1) : Answer :=
   match gate Generated.registry op (dtsOf ins) with
   | .error e =>
-    if op == "Cast" && e == .inputType && ins.length == 1 then
+    if let some g := initPanics op attrs then
+      { model := .ofErr .panic, tags := ["gate-refuses", "init-panics"], guard := [g], spec := { domain := "mayRefuse" } }
+    else if op == "Cast" && e == .inputType && ins.length == 1 then
       -- C11 quantifies over all ten numeric source types: a numeric source refused by the gate is judged
       -- against the conversion the operator would have to perform
       let a := runConstOp op attrs ins
